@@ -70,6 +70,22 @@ UNIT = {
    'DEV_REAL_PREFIX_ACCEPTED': 'tolerance of unit lexer, restated with the contract of Substr::real_number',
  },
  'allowed_assumes': [],
+ # BOUNDED native stand-in (vlib/native.py) for C03 on the public API (pdf::parser::parse / parse_with_lexer / parse_indirect_object): decides
+ # restructurings of the parser / lexers that the Verus units (parser_obj, lexer, strlex) cannot read. Never counted as proved.
+ 'native': {'tests': [
+    {'name': 'conformant_spellings_up_to_3_tokens', 'code': 'native_spellings_bounded.rs', 'place': 'pdf/tests/verif_c03_spellings.rs',
+     'fn': 'parse_with_lexer', 'props': ['C03'], 'tier': 'quick', 'timeout': 900,
+     'bound': '117 hand-written conformant token spellings with hand-written values (integers with sign / leading zeros / i32 limits; reals `1.` `.5` '
+              '`-.002` `+17.0`; names with #xx incl. #23, the empty name; literal strings: every escape, \\ddd with 1-3 digits, \\377, \\400, nested '
+              'parentheses, line continuation with CR / LF / CRLF, raw EOL normalisation; hex strings with every white-space character and odd digit '
+              'counts; true false null; references with every separator inside; small arrays / dictionaries incl. [1 2 3 0 R 4]) x 16 separators '
+              '(none where no separator is needed, NUL HT LF FF CR SP, CRLF, comments ended by LF / CR / CRLF, empty comment, comment holding delimiters) x '
+              'contexts {top-level sequence with ONE lexer, array, dictionary value}: all singles x S x S, all ordered pairs x S (+ S x S alternating in '
+              'arrays), all triples over 26 core tokens x S; 864 indirect streams (white-space before `stream`, LF / CRLF after it); 4.9 million texts. '
+              'EXCLUDED (known finding DEV_STREAM_KEYWORD_COMMENT_NOT_SKIPPED): a comment between the dictionary and the keyword `stream`; names that are not UTF-8',
+     'contract': 'parse returns exactly the denoted value; in a sequence each parse returns its value and leaves the lexer between the end of its '
+                 'token and the start of the next; nothing but white-space / comments remains at the end; a stream\'s data range is exactly its bytes'},
+ ]},
  'items': {
   'type ObjNr': {'kind': 'decl', 'file': O, 'header': r'^pub type ObjNr = u64;$'},
   'type GenNr': {'kind': 'decl', 'file': O, 'header': r'^pub type GenNr = u64;$'},
